@@ -11,36 +11,70 @@ open PhyVerif.C18 (Cell)
 
 variable {α : Type} [Zero α]
 
-/-- For every history of saves / subset exports / close / reload, a reload shows exactly the last
-saved spike-cluster assignments. -/
-theorem clusters_last_saved (render : Cell → String) (scale : α → α) (d : Disk α) (ops : List Op) :
-    (run render scale d ops).clusters = (absRun ⟨d.clusters, []⟩ ops).clusters :=
-  Lemmas.clusters_last_saved render scale d ops
+/-- For every history of saves / subset exports / foreign writes / close / reload run by a session (a `TemplateModel`
+exists only after a load, which leaves an assignment file: `hfile`, see `first_load`), a fresh load shows exactly the
+last saved spike-cluster assignments — or, when nothing was saved, what the opening load showed. The assignment file is
+kept BY NAME (`spike_clusters.npy`, `spikes.clusters.npy`, a labelled `spikes.clusters.probe00.npy`): `shown` reads the
+file the loader's `_find_path` resolves, `saveClusters` writes the file the save's `_find_path` resolves, and the
+theorem holds because the two resolve the same file (`findAssign_write`). `_hnc`: a directory in which BOTH name
+patterns match is rejected by the loader (IOError, `multiple_ok=False`) — out of scope, and by `assign_stays_loadable`
+no history creates one. -/
+theorem clusters_last_saved (render : Cell → String) (scale : α → α) (d : Disk α)
+    (hfile : (findAssign d.assign).isSome) (_hnc : ¬ Conflict d.assign) (ops : List Op) :
+    shown (run render scale d ops) = (absRun ⟨shown d, []⟩ ops).clusters :=
+  Lemmas.clusters_last_saved render scale d hfile ops
+
+/-- … and every later load of the history finds its file and no name conflict arises. -/
+theorem assign_stays_loadable (render : Cell → String) (scale : α → α) (d : Disk α)
+    (hfile : (findAssign d.assign).isSome) (hnc : ¬ Conflict d.assign) (ops : List Op) :
+    (findAssign (run render scale d ops).assign).isSome ∧ ¬ Conflict (run render scale d ops).assign :=
+  Lemmas.assign_stays_loadable render scale d hfile hnc ops
+
+/-- The load that opens a session, on ANY directory: afterwards an assignment file is found and shows what this load
+showed; a directory that has one is left untouched; a directory with none gets `spike_clusters.npy` holding the spike
+templates (the only file of this model a load ever writes) and nothing else changes. -/
+theorem first_load (render : Cell → String) (scale : α → α) (d : Disk α) :
+    (findAssign (step render scale d .reload).assign).isSome ∧
+    shown (step render scale d .reload) = shown d ∧
+    ((findAssign d.assign).isSome → step render scale d .reload = d) ∧
+    (findAssign d.assign = none →
+      (step render scale d .reload).assign = [(none, d.fixed.spikeTemplates)] ∧
+      ¬ Conflict (step render scale d .reload).assign) ∧
+    (step render scale d .reload).files = d.files ∧ (step render scale d .reload).subset = d.subset ∧
+    (step render scale d .reload).fixed = d.fixed :=
+  Lemmas.first_load render scale d
 
 /-- … and, for every metadata field ever saved, exactly the last saved mapping of that field
 (None entries dropped, ids ascending), whatever was saved before or for other fields —
-refinement of the directory to the abstract "last write wins" state, for any renderer/parser pair
-that round-trips values and integers — and whatever legacy `.csv` files (any names, any content,
-also ones carrying the same field) are present: the saved `.tsv` wins. -/
-theorem metadata_last_saved (render : Cell → String) (parse : String → Cell)
-    (hrt : ∀ c, parse (render c) = c) (hne : ∀ c, render c ≠ "")
-    (hid : ∀ n : Nat, parse (toString n) = .int n) (scale : α → α)
-    (d : Disk α) (hcsv : ∀ p ∈ d.files, p.1.2 = false)   -- any legacy CSV files, any content
-    (ops : List Op) (hown : OwnOps ops) (field : String) (vals : List (Nat × Cell))
+refinement of the directory to the abstract "last write wins" state — for ANY initial directory in which no
+`.tsv` file other than `cluster_<field>.tsv` itself says anything about the field (`hinit`): KiloSort's own
+`cluster_KSLabel.tsv`, `cluster_Amplitude.tsv`, `cluster_ContamPct.tsv`, a `cluster_group.tsv` that is saved over, and
+legacy `.csv` files of any names and content (also ones carrying the same field: the saved `.tsv` wins) are all allowed.
+The codec hypotheses `hrt`, `hne` are about the SAVED CELLS only (integers, floats, and strings that are no numerals and
+not empty: `str` / csv quoting and `_try_make_number` satisfy them; a string like "5" does not, and is outside the
+property's "non-numeric strings"); `hid`: a plain decimal id reads back as that integer.
+When another `.tsv` does carry the field, or foreign files are written during the history:
+`metadata_last_saved_among_files`. -/
+theorem metadata_last_saved (render : Cell → String) (parse : String → Cell) (fnum : Nat → Option Int)
+    (scale : α → α) (d : Disk α) (ops : List Op) (hown : OwnOps ops) (field : String) (vals : List (Nat × Cell))
+    (hrt : ∀ p ∈ vals, parse (render p.2) = p.2) (hne : ∀ p ∈ vals, render p.2 ≠ "")
+    (hid : ∀ n : Nat, parse (toString n) = .int n)
+    (hinit : ∀ p ∈ d.files, p.1.2 = true → p.1 ≠ ("cluster_" ++ field, true) → fileField parse fnum field p = none)
     (hf : (absRun ⟨[], []⟩ ops).fields.lookup field = some vals)
     (hinfo : field ≠ "info")     -- `cluster_info.tsv` is deliberately ignored on load
     (hvals : vals ≠ []) :
-    fieldView parse (run render scale d ops) field =
+    fieldView parse fnum (run render scale d ops) field =
       some (vals.map fun p => (Cell.int p.1, p.2)) :=
-  Lemmas.metadata_last_saved render parse hrt hne hid scale d hcsv ops hown field vals hf hinfo hvals
+  Lemmas.metadata_last_saved render parse fnum scale d ops hown field vals hrt hne hid hinit hf hinfo hvals
 
 /-- The loader, for ANY list of files in ANY visiting order: a field shows exactly what the LAST visited file that
 says anything about it says (`fileField`: a readable file other than `cluster_info.*` with a row giving the
 field a value next to a `cluster_id`); `none` when no file does. This is the rule that decides which file wins
 when a foreign TSV/CSV and a saved file carry the same field. -/
-theorem view_field_eq_last (parse : String → Cell) (visit : List (FName × File)) (field : String) :
-    (metadataViewIn parse visit).lookup field = visit.reverse.findSome? (fileField parse field) :=
-  Lemmas.view_field_eq_last parse visit field
+theorem view_field_eq_last (parse : String → Cell) (fnum : Nat → Option Int) (visit : List (FName × File))
+    (field : String) :
+    (metadataViewIn parse fnum visit).lookup field = visit.reverse.findSome? (fileField parse fnum field) :=
+  Lemmas.view_field_eq_last parse fnum visit field
 
 /-- "… the last saved mapping of every metadata field next to metadata found in other TSV/CSV files", widened to
 foreign files of BOTH kinds, present before or written at any point of the history (`writeFile` ops are allowed
@@ -51,29 +85,65 @@ shows exactly the last saved mapping of the field, provided no OTHER `.tsv` file
 anything about the field (`hother`; legacy `.csv` files may — the saved `.tsv` wins because it is visited later).
 When another `.tsv` does carry the field, which of the two is shown is decided by `view_field_eq_last`: the one the
 directory order visits last — the real `glob` order; not determined by the code.
-`hvals`: a field emptied by the last save is written as a header-only file that says nothing. -/
-theorem metadata_last_saved_among_files (render : Cell → String) (parse : String → Cell)
-    (hrt : ∀ c, parse (render c) = c) (hne : ∀ c, render c ≠ "")
-    (hid : ∀ n : Nat, parse (toString n) = .int n) (scale : α → α)
+`hvals`: a field emptied by the last save is written as a header-only file that says nothing. Codec hypotheses on the
+saved cells only, as in `metadata_last_saved`. -/
+theorem metadata_last_saved_among_files (render : Cell → String) (parse : String → Cell) (fnum : Nat → Option Int)
+    (scale : α → α)
     (d : Disk α) (pre post : List Op) (field : String) (m : List (Nat × Option Cell))
+    (hrt : ∀ p ∈ cleanMeta m, parse (render p.2) = p.2) (hne : ∀ p ∈ cleanMeta m, render p.2 ≠ "")
+    (hid : ∀ n : Nat, parse (toString n) = .int n)
     (hkeep : KeepsSaved field post)
     (hfield : field ≠ "cluster_id") (hinfo : field ≠ "info") (hvals : cleanMeta m ≠ [])
     (order : List (FName × File))
     (hperm : order.Perm (run render scale d (pre ++ .saveMeta field m :: post)).files)
     (hother : ∀ p ∈ (run render scale d (pre ++ .saveMeta field m :: post)).files,
-      p.1.2 = true → p.1 ≠ ("cluster_" ++ field, true) → fileField parse field p = none) :
-    (metadataView parse order).lookup field =
+      p.1.2 = true → p.1 ≠ ("cluster_" ++ field, true) → fileField parse fnum field p = none) :
+    (metadataView parse fnum order).lookup field =
       some ((cleanMeta m).map fun p => (Cell.int p.1, p.2)) :=
-  Lemmas.metadata_last_saved_among_files render parse hrt hne hid scale d pre post field m hkeep hfield
+  Lemmas.metadata_last_saved_among_files render parse fnum scale d pre post field m hrt hne hid hkeep hfield
     hinfo hvals order hperm hother
 
-/-- "unchanged spike templates and times": no operation of any history writes `spike_templates.npy`,
-`spike_times.npy`, the raw data or the template files; a reload shows them as they were. -/
+/-- "metadata found in other TSV/CSV files": a readable two-column file `cluster_id, f` with non-empty cells shows ONE
+field whose entries are keyed by the PARSED id value, as the Python dict is (`1`, `01`, `1.0`, `1e0` are one key): the
+ids shown are pairwise different as keys, and for every key class `κ` the value shown is the one of the LAST row whose id
+is in the class, under the key object of the FIRST such row. -/
+theorem two_column_file_by_id_value (parse : String → Cell) (fnum : Nat → Option Int)
+    (f : String) (hf : f ≠ "cluster_id") (rows : List (String × String))
+    (hne : ∀ r ∈ rows, r.1 ≠ "" ∧ r.2 ≠ "") (hrows : rows ≠ []) :
+    ∃ dict, loadMetadata parse fnum (.table ["cluster_id", f] (rows.map fun r => [r.1, r.2])) = some [(f, dict)] ∧
+      (dict.map fun q => keyOf fnum q.1).Nodup ∧
+      ∀ κ, (dictGet fnum dict κ).map (·.2) =
+          (((rows.map fun r => (parse r.1, parse r.2)).reverse.find? fun r => keyOf fnum r.1 == κ).map (·.2)) ∧
+        (dictGet fnum dict κ).map (·.1) =
+          (((rows.map fun r => (parse r.1, parse r.2)).find? fun r => keyOf fnum r.1 == κ).map (·.1)) :=
+  Lemmas.two_column_file parse fnum f hf rows hne hrows
+
+/-- "unchanged spike templates and times" — the MODEL side. What this establishes: the disk model every other theorem
+of this file runs on never rewrites `spike_templates.npy`, `spike_times.npy`, the raw data or the template files, so
+those theorems may speak of `d.fixed` after any history. What it does NOT establish: it holds by construction of `step`
+(every branch is a record update of `assign`, `files` or `subset`; `step_writes_only` is the full frame statement), so
+by itself it says nothing about the real functions. That the real `save_*` / `close` / `load_model` leave these files
+alone is checked by the correspondence: after EVERY step of every generated history the bytes of every file in the
+directory are compared with the bytes before the step, and only the files `touched` names may differ (a change of
+`spike_templates.npy` / `spike_times.npy` / `spikes.times.npy` is a SPEC verdict); each reload also compares the
+loaded `spike_templates` / `spike_samples` with the generated ones. -/
 theorem templates_times_unchanged (render : Cell → String) (scale : α → α) (d : Disk α) (ops : List Op) :
     (run render scale d ops).fixed.spikeTemplates = d.fixed.spikeTemplates ∧
     (run render scale d ops).fixed.spikeSamples = d.fixed.spikeSamples ∧
     (run render scale d ops).fixed = d.fixed :=
   Lemmas.templates_times_unchanged render scale d ops
+
+/-- The frame of every operation: `touched d op` names the only files `step` may change — the resolved assignment
+file for a save of clusters, `cluster_<field>.tsv` for a save of metadata, the three subset files for an export with
+raw data (nothing without), `spike_clusters.npy` for a load that finds no assignment file, nothing for `close` and for
+any other load. The driver reports `touched` for every step of a history and the harness compares it with the files
+whose bytes really changed. -/
+theorem step_writes_only (render : Cell → String) (scale : α → α) (d : Disk α) (op : Op) :
+    (step render scale d op).fixed = d.fixed ∧
+    (Target.subsetStore ∉ touched d op → (step render scale d op).subset = d.subset) ∧
+    (∀ n, Target.assign n ∉ touched d op → (step render scale d op).assign.lookup n = d.assign.lookup n) ∧
+    (∀ n, Target.table n ∉ touched d op → (step render scale d op).files.lookup n = d.files.lookup n) :=
+  Lemmas.step_writes_only render scale d op
 
 /-- "subset-store waveforms equal to those read from the raw data", for EVERY history (induction over the
 operations; composition with the C03 model): whatever was saved, written, exported, closed and reloaded, if a
@@ -81,10 +151,12 @@ reload finds a subset store then every lookup of stored spikes (any order, any n
 dataset's window length) returns, on each query channel stored for the spike, the unit factor times the
 zero-padded raw window of THAT spike — its unchanged sample in the unchanged recording — and zeros on the other
 channels; and the stored channel row of every stored spike is the first `nc` channels of its template's channel
-order, filled up with −1. In scope: datasets `load_model` accepts (`FixedOK`), a directory without a store at the
-start, selections as `SpikeSelector` returns them (`SelOK`). -/
+order, filled up with −1. In scope: datasets `load_model` accepts, with raw data (`FixedOK`), a directory that starts
+without a store or with the store an earlier session's export wrote (`SubsetFromExport`), selections as
+`SpikeSelector` returns them (`SelOK`). -/
 theorem subset_eq_raw (render : Cell → String) (scale : α → α) (nch : Nat) (d : Disk α)
-    (hfx : FixedOK nch d.fixed) (hinit : d.subset = none) (ops : List Op) (hsel : SelOK d.fixed ops)
+    (hfx : FixedOK nch d.fixed) (hinit : SubsetFromExport scale d.fixed d.subset) (ops : List Op)
+    (hsel : SelOK d.fixed ops)
     (st : C03.Store α) (hst : storeView (run render scale d ops) = some st)
     (query : List Nat) (hq : ∀ q ∈ query, q ∈ st.spikeIds) (chq : List Nat) (hchq : chq ≠ [])
     (_hchqd : chq.Nodup) :
@@ -96,29 +168,53 @@ theorem subset_eq_raw (render : Cell → String) (scale : α → α) (nch : Nat)
       C03.templateNChannels true (d.fixed.orders.getD (d.fixed.spikeTemplates.getD i 0) []) nc :=
   Lemmas.subset_eq_raw render scale nch d hfx hinit ops hsel st hst query hq chq hchq
 
-/-- … and once the subset has been exported anywhere in the history, every later reload does find a store (the
-written files load as an array of the declared shape). -/
+/-- … the same with NO assumption on the subset files the history starts with (stale, foreign, of another unit factor),
+once the history itself contains an export: the store a later reload finds is the one of the last export. -/
+theorem subset_eq_raw_after_export (render : Cell → String) (scale : α → α) (nch : Nat) (d : Disk α)
+    (hfx : FixedOK nch d.fixed) (a b : List Op) (sel : List Nat) (maxN : Nat)
+    (hsel : SelOK d.fixed (a ++ .saveSubset sel maxN :: b))
+    (st : C03.Store α) (hst : storeView (run render scale d (a ++ .saveSubset sel maxN :: b)) = some st)
+    (query : List Nat) (hq : ∀ q ∈ query, q ∈ st.spikeIds) (chq : List Nat) (hchq : chq ≠ []) :
+    C03.getSpikeWaveforms st query chq d.fixed.nsw =
+      some (query.map fun q =>
+        C03.lookupSpec scale d.fixed.raw (d.fixed.spikeSamples.getD q 0) d.fixed.nsw
+          (st.spikeChannels.getD (st.spikeIds.idxOf q) []) chq) ∧
+    ∃ nc, 0 < nc ∧ st.spikeChannels = st.spikeIds.map fun i =>
+      C03.templateNChannels true (d.fixed.orders.getD (d.fixed.spikeTemplates.getD i 0) []) nc :=
+  Lemmas.subset_eq_raw_after_export render scale nch d hfx a b sel maxN hsel st hst query hq chq hchq
+
+/-- … and once the subset has been exported anywhere in the history (dataset with raw data), every later reload DOES
+find a store (the written files load as an array of the declared shape) — whatever subset files were there before.
+The harness judges it: a reload after an export that shows no store is a SPEC verdict. -/
 theorem subset_present (render : Cell → String) (scale : α → α) (nch : Nat) (d : Disk α)
-    (hfx : FixedOK nch d.fixed) (hinit : d.subset = none) (a b : List Op) (sel : List Nat) (maxN : Nat)
+    (hfx : FixedOK nch d.fixed) (a b : List Op) (sel : List Nat) (maxN : Nat)
     (hsel : SelOK d.fixed (a ++ .saveSubset sel maxN :: b)) :
     (storeView (run render scale d (a ++ .saveSubset sel maxN :: b))).isSome :=
-  Lemmas.subset_present render scale nch d hfx hinit a b sel maxN hsel
+  Lemmas.subset_present render scale nch d hfx a b sel maxN hsel
+
+/-- Without raw data (`model.traces is None`) `save_spikes_subset_waveforms` warns and returns (model.py l. 1401-1404): no
+history writes or removes subset files. -/
+theorem export_needs_raw (render : Cell → String) (scale : α → α) (ops : List Op) (d : Disk α)
+    (hraw : d.fixed.hasRaw = false) : (run render scale d ops).subset = d.subset :=
+  Lemmas.export_needs_raw render scale ops d hraw
 
 /-- Malformed or empty metadata files never prevent loading and never change what is shown for
 the other files: an unreadable file contributes nothing. -/
-theorem unreadable_ignored (parse : String → Cell) (files : List (FName × File)) (name : FName) :
-    metadataView parse (putFile files name .unreadable) =
-      metadataView parse (files.filter fun p => p.1 != name) :=
-  Lemmas.unreadable_ignored parse files name
+theorem unreadable_ignored (parse : String → Cell) (fnum : Nat → Option Int) (files : List (FName × File))
+    (name : FName) :
+    metadataView parse fnum (putFile files name .unreadable) =
+      metadataView parse fnum (files.filter fun p => p.1 != name) :=
+  Lemmas.unreadable_ignored parse fnum files name
 
 /-- `cluster_info` is never read as metadata. -/
-theorem cluster_info_excluded (parse : String → Cell) (files : List (FName × File)) (tsv : Bool) (f : File) :
-    metadataView parse (putFile files ("cluster_info", tsv) f) =
-      metadataView parse (files.filter fun p => p.1 != ("cluster_info", tsv)) :=
-  Lemmas.cluster_info_excluded parse files tsv f
+theorem cluster_info_excluded (parse : String → Cell) (fnum : Nat → Option Int) (files : List (FName × File))
+    (tsv : Bool) (f : File) :
+    metadataView parse fnum (putFile files ("cluster_info", tsv) f) =
+      metadataView parse fnum (files.filter fun p => p.1 != ("cluster_info", tsv)) :=
+  Lemmas.cluster_info_excluded parse fnum files tsv f
 
-/-- Saving metadata, exporting the subset, closing and reloading never touch the assignments or
-any other file (frame). -/
+/-- Saving clusters or metadata, exporting the subset, closing and reloading never touch any other metadata file
+(frame of the tables; the whole frame: `step_writes_only`). -/
 theorem step_frame (render : Cell → String) (scale : α → α) (d : Disk α) (op : Op) (name : FName)
     (hs : match op with
       | .saveMeta field _ => name ≠ ("cluster_" ++ field, true)
@@ -128,18 +224,54 @@ theorem step_frame (render : Cell → String) (scale : α → α) (d : Disk α) 
   Lemmas.step_frame render scale d op name hs
 
 /-! Non-vacuity (cells of the recording are integers) -/
--- fixtures `exFixed` (4 samples × 3 channels, 4 spikes of templates 1,0,1,0) and `exRender`: `Lemmas/C10b.lean`
+-- fixtures `exFixed` (4 samples × 3 channels, 4 spikes of templates 1,0,1,0, raw data present) and `exRender`:
+-- `Lemmas/C10b.lean`; `noF`: no float token is integral
 example :
-    (run exRender (fun x => 2 * x) ⟨[0, 1], [], none, exFixed⟩
+    (run exRender (fun x => 2 * x) ⟨[(none, [0, 1])], [], none, exFixed⟩
       [.saveMeta "group" [(3, some (.text "good")), (1, some (.text "mua")), (2, none)],
        .saveClusters [1, 1], .reload, .saveMeta "group" [(1, some (.text "noise"))], .close, .reload]).files =
       [(("cluster_group", true), .table ["cluster_id", "group"] [["1", "noise"]])] := by decide
+-- the assignments live in a LABELLED ALF file: loaded, saved to that same file, shown by the next load
+example :
+    let d : Disk Int := ⟨[(some ".probe00", [3, 0, 3, 0])], [], none, exFixed⟩
+    (findAssign d.assign).isSome ∧ shown d = [3, 0, 3, 0] ∧
+    (run exRender (fun x => x) d [.reload, .saveClusters [5, 5, 6, 6], .close, .reload]).assign =
+      [(some ".probe00", [5, 5, 6, 6])] ∧
+    shown (run exRender (fun x => x) d [.reload, .saveClusters [5, 5, 6, 6], .close, .reload]) = [5, 5, 6, 6] ∧
+    touched d (.saveClusters [5, 5, 6, 6]) = [.assign (some ".probe00")] := by decide
+example : ¬ Conflict [((some ".probe00" : CName), [3, 0, 3, 0])] := by
+  intro ⟨⟨p, hp, h⟩, _⟩
+  simp only [List.mem_singleton] at hp
+  subst hp
+  cases h
+-- no assignment file at all (a fresh KiloSort output): the opening load creates `spike_clusters.npy` from the templates
+example :
+    let d : Disk Int := ⟨[], [], none, exFixed⟩
+    findAssign d.assign = none ∧ shown d = [1, 0, 1, 0] ∧
+    (step exRender (fun x => x) d .reload).assign = [(none, [1, 0, 1, 0])] ∧
+    touched d .reload = [.assign none] ∧
+    touched (step exRender (fun x => x) d .reload) .reload = [] := by decide
 -- a legacy CSV carrying the same field does not hide the saved mapping
 example :
     let parse : String → Cell := fun s => if s == "1" then .int 1 else .text s
-    fieldView parse (run exRender (fun x => x)
+    fieldView parse noF (run exRender (fun x => x)
       ⟨[], [(("cluster_groups", false), .table ["cluster_id", "group"] [["1", "unsorted"]])], none, exFixed⟩
       [.saveMeta "group" [(1, some (.text "good"))]]) "group" = some [(.int 1, .text "good")] := by decide
+-- a KiloSort output directory (`cluster_KSLabel.tsv`, `cluster_group.tsv` already there): `group` is saved over,
+-- `KSLabel` stays next to it; the hypothesis `hinit` of `metadata_last_saved` holds for `group`
+example :
+    let parse : String → Cell := fun s => if s == "1" then .int 1 else if s == "2" then .int 2 else .text s
+    let d : Disk Int := ⟨[], [(("cluster_KSLabel", true), .table ["cluster_id", "KSLabel"] [["1", "good"], ["2", "mua"]]),
+      (("cluster_group", true), .table ["cluster_id", "group"] [["1", "good"], ["2", "mua"]])], none, exFixed⟩
+    (∀ p ∈ d.files, p.1.2 = true → p.1 ≠ ("cluster_" ++ "group", true) → fileField parse noF "group" p = none) ∧
+    fieldView parse noF (run exRender (fun x => x) d [.saveMeta "group" [(2, some (.text "noise"))]]) "group" =
+      some [(.int 2, .text "noise")] ∧
+    fieldView parse noF (run exRender (fun x => x) d [.saveMeta "group" [(2, some (.text "noise"))]]) "KSLabel" =
+      some [(.int 1, .text "good"), (.int 2, .text "mua")] := by decide
+example : OwnOps [.saveMeta "group" [(2, some (.text "noise"))], .saveClusters [1], .reload] := by
+  intro op hop
+  simp only [List.mem_cons, List.mem_nil_iff, or_false] at hop
+  rcases hop with rfl | rfl | rfl <;> simp
 example : cleanMeta [(3, some (.int 5)), (1, some (.int 7)), (3, none), (2, some (.int 1))] =
     [(1, .int 7), (2, .int 1)] := by decide
 -- a foreign TSV with the same field, written during the history: the directory order decides
@@ -149,29 +281,56 @@ example :
     let saved : FName × File := (("cluster_group", true), .table ["cluster_id", "group"] [["1", "ours"]])
     (run exRender (fun x => x) ⟨[], [], none, exFixed⟩
         [.writeFile foreign.1 foreign.2, .saveMeta "group" [(1, some (.text "ours"))]]).files = [foreign, saved] ∧
-    (metadataViewIn parse [foreign, saved]).lookup "group" = some [(.int 1, .text "ours")] ∧
-    (metadataViewIn parse [saved, foreign]).lookup "group" = some [(.int 1, .text "theirs")] ∧
-    fileField parse "group" foreign = some [(.int 1, .text "theirs")] ∧
-    fileField parse "quality" foreign = none := by decide
+    (metadataViewIn parse noF [foreign, saved]).lookup "group" = some [(.int 1, .text "ours")] ∧
+    (metadataViewIn parse noF [saved, foreign]).lookup "group" = some [(.int 1, .text "theirs")] ∧
+    fileField parse noF "group" foreign = some [(.int 1, .text "theirs")] ∧
+    fileField parse noF "quality" foreign = none := by decide
 -- a repeated `cluster_id` column: the last non-empty cell is the id (dict semantics of read_tsv)
 example :
     let parse : String → Cell := fun s => if s == "1" then .int 1 else if s == "2" then .int 2 else .text s
-    loadMetadata parse (.table ["cluster_id", "zz", "cluster_id"] [["1", "A", "2"], ["1", "B", ""]]) =
+    loadMetadata parse noF (.table ["cluster_id", "zz", "cluster_id"] [["1", "A", "2"], ["1", "B", ""]]) =
       some [("zz", [(.int 2, .text "A"), (.int 1, .text "B")])] := by decide
+-- ids written differently but numerically equal are ONE key (real code: `{1: 'B', 2: 'D', 1.5: 'E'}`): the first row's
+-- key object, the last row's value; `1.5` and the text id `x` are keys of their own
+example :
+    let parse : String → Cell := fun s =>
+      if s == "1" || s == "01" then .int 1 else if s == "1.0" then .float 10 else if s == "2e0" then .float 20
+      else if s == "2" then .int 2 else if s == "1.5" then .float 15 else .text s
+    let fnum : Nat → Option Int := fun t => if t == 10 then some 1 else if t == 20 then some 2 else none
+    loadMetadata parse fnum (.table ["cluster_id", "ffa"]
+        [["1", "A"], ["2e0", "C"], ["1.0", "B"], ["1.5", "E"], ["2", "D"], ["x", "F"], ["01", "G"]]) =
+      some [("ffa", [(.int 1, .text "G"), (.float 20, .text "D"), (.float 15, .text "E"), (.text "x", .text "F")])] ∧
+    keyOf fnum (.float 10) = keyOf fnum (.int 1) ∧ keyOf fnum (.float 15) ≠ keyOf fnum (.int 1) := by decide
 -- the subset store after a history with an export (factor 2, spikes 1 and 2 selected, width max(0 or 2, 2) = 2)
 example : KeepsSaved "group" [.saveSubset [1, 2] 0, .writeFile ("zz", true) .unreadable, .saveMeta "quality" [], .reload] := by
   intro op hop
   simp only [List.mem_cons, List.mem_nil_iff, or_false] at hop
   rcases hop with rfl | rfl | rfl | rfl <;> simp
 example :
-    (storeView (run exRender (fun x => 2 * x) ⟨[0, 1, 0, 1], [], none, exFixed⟩
+    (storeView (run exRender (fun x => 2 * x) ⟨[(none, [0, 1, 0, 1])], [], none, exFixed⟩
       [.saveSubset [1, 2] 0, .saveClusters [3, 3, 3, 3], .close, .reload])).bind
       (fun st => C03.getSpikeWaveforms st [2, 1] [1, 2] 2) =
     some [[[16, 0], [22, 0]], [[0, 6], [0, 12]]] := by decide
+-- a session that STARTS with the store of an earlier session's export (`SubsetFromExport`), and an export over it
+example :
+    let old := C03.saveSubset (fun x : Int => 2 * x) exFixed.raw exFixed.chunks exFixed.spikeSamples
+      exFixed.spikeTemplates exFixed.orders [1, 2] exFixed.nsw (C03.subsetWidth 0 exFixed.nClosest)
+    SubsetFromExport (fun x : Int => 2 * x) exFixed (some old) ∧
+    (storeView (run exRender (fun x => 2 * x) ⟨[(none, [0, 1, 0, 1])], [], some old, exFixed⟩ [.close, .reload])).bind
+      (fun st => C03.getSpikeWaveforms st [2, 1] [1, 2] 2) = some [[[16, 0], [22, 0]], [[0, 6], [0, 12]]] ∧
+    ((storeView (run exRender (fun x => 2 * x) ⟨[(none, [0, 1, 0, 1])], [], some old, exFixed⟩
+      [.saveSubset [0, 3] 0, .reload])).map (·.spikeIds)) = some [0, 3] :=
+  ⟨Or.inr ⟨[1, 2], 0, by decide, by decide, rfl⟩, by decide, by decide⟩
+-- no raw data: the export writes nothing
+example :
+    (run exRender (fun x => 2 * x) ⟨[(none, [0, 1, 0, 1])], [], none, { exFixed with hasRaw := false }⟩
+      [.saveSubset [1, 2] 0, .reload]).subset = none ∧
+    touched (⟨[], [], none, { exFixed with hasRaw := false }⟩ : Disk Int) (.saveSubset [1, 2] 0) = [] ∧
+    touched (⟨[], [], none, exFixed⟩ : Disk Int) (.saveSubset [1, 2] 0) = [.subsetStore] := by decide
 example : PhyVerif.C16.intervalsTile exFixed.raw.length exFixed.chunks = true := by decide
 -- the hypotheses of `subset_eq_raw` hold for that dataset and history
 example : FixedOK 3 exFixed :=
-  { rect := by simp [C03.Rect, exFixed], tile := by decide, sorted := by decide, inrange := by decide,
+  { raw := rfl, rect := by simp [C03.Rect, exFixed], tile := by decide, sorted := by decide, inrange := by decide,
     tlen := by decide, tbound := by decide,
     ord := by
       intro o ho
